@@ -80,6 +80,8 @@ type simNode struct {
 	fatal   []string
 	stalled bool
 	joined  bool // JoinCluster returned: cmd/anndb would now be serving
+	retired bool // removed from the cluster and taken out of service for good
+	limbo   bool // a removal was requested but never acknowledged: the node runs on, nothing is asserted about it
 }
 
 type simCall struct {
